@@ -65,6 +65,21 @@ func (x *Exec) evalCall(call *ast.CallExpr, env *Env) []Term {
 			recvExpr = se.X
 		}
 	}
+	// call-site clauses on library callees (checked before the library model consumes the call)
+	if _, inMod := x.P.ByObj[fn]; !inMod && x.cx != nil && x.cx.fc != nil && len(x.cx.fc.Callsite) > 0 && x.quiet == 0 && !x.termMode {
+		for _, cs := range x.cx.fc.Callsite {
+			if cs.Callee != "make" && (cs.Callee == key || cs.Callee == fn.Name()) {
+				x.quiet++
+				var as []Term
+				for _, a := range call.Args {
+					as = append(as, x.eval(a, env))
+				}
+				x.quiet--
+				x.callsiteClauses(fn, key, call, as, env)
+				break
+			}
+		}
+	}
 	// library models
 	if rs, ok := x.libCall(key, fn, call, recvExpr, env); ok {
 		return rs
@@ -84,7 +99,9 @@ func (x *Exec) evalCall(call *ast.CallExpr, env *Env) []Term {
 		}
 	}
 	args := x.evalArgs(call, sig, env)
-	x.callsiteClauses(fn, key, call, args, env)
+	if _, inMod := x.P.ByObj[fn]; inMod {
+		x.callsiteClauses(fn, key, call, args, env)
+	}
 
 	fi := x.P.ByObj[fn]
 	var fc *FuncContract
